@@ -121,7 +121,7 @@ def main(tier: str) -> int:
                     pats = sorted({"+".join(m["patterns"]) for m in ms})
                     run.violation(key, f"{len(ms)} input pattern combination(s) {pats[:6]}: {ms[0]['what']}",
                                   {"kind": "corpus", "pid": r["pid"], "tier": tier, "class": cls,
-                                   "patterns": ms[0]["patterns"], "observed": ms[:5]})
+                                   "patterns": ms[0]["patterns"], "observed": ms[:5]}, cases=pats)
         run.cov["exported"] = sum(1 for r in exp.values() if r.get("status") == "ok")
         run.cov["export_raised"] = sum(1 for r in exp.values() if r.get("status") == "raise")
         run.cov["export_harness"] = sum(1 for r in exp.values() if is_worker_failure(r))
